@@ -121,6 +121,55 @@ func (w *fgWalker) inline(fr *fgFrame, call *ssa.Call) *ssa.Function {
 	return nil
 }
 
+// boundArg: what a parameter of an inlined frame stands for at the frame's call site (followed outwards).
+func (w *fgWalker) boundArg(fr *fgFrame, v ssa.Value) ssa.Value {
+	for x := fr; x != nil && x.site != nil; x = x.parent {
+		p, ok := v.(*ssa.Parameter)
+		if !ok || p.Parent() != x.fn {
+			break
+		}
+		args := callArgs(&x.site.Call)
+		idx := -1
+		for i, q := range x.fn.Params {
+			if q == p {
+				idx = i
+			}
+		}
+		if idx < 0 || idx >= len(args) {
+			break
+		}
+		v = args[idx]
+	}
+	return v
+}
+
+// funcValueTarget: the function a func-typed value denotes: a function, a closure, or a method value (bound method
+// wrapper -> the method).
+func funcValueTarget(v ssa.Value) (fn *ssa.Function, boundRecv ssa.Value) {
+	switch x := v.(type) {
+	case *ssa.Function:
+		return x, nil
+	case *ssa.MakeClosure:
+		f, _ := x.Fn.(*ssa.Function)
+		if f == nil {
+			return nil, nil
+		}
+		if strings.Contains(f.Synthetic, "bound method") && len(x.Bindings) == 1 {
+			for _, b := range f.Blocks {
+				for _, ins := range b.Instrs {
+					if c, ok := ins.(*ssa.Call); ok {
+						if sc := c.Call.StaticCallee(); sc != nil {
+							return sc, x.Bindings[0]
+						}
+					}
+				}
+			}
+		}
+		return f, nil
+	}
+	return nil, nil
+}
+
 // run walks block b of frame fr from instruction idx. started: a header has been read on this path. retNil: what is known
 // about the error values returned by inlined calls (call -> nil / non-nil).
 func (w *fgWalker) run(fr *fgFrame, b *ssa.BasicBlock, idx int, st *fgState, started bool, retNil map[ssa.Value]int, kret func(st *fgState, started bool, retNil map[ssa.Value]int, ret *ssa.Return)) {
@@ -166,6 +215,31 @@ func (w *fgWalker) run(fr *fgFrame, b *ssa.BasicBlock, idx int, st *fgState, sta
 				started = true
 				st = &fgState{est: map[string]bool{}, bools: st.bools}
 				continue
+			}
+			if sc == nil && !x.Call.IsInvoke() {
+				// a check handed in as a function value (`levels func(*DataPageHeader) error`)
+				if tgt, _ := funcValueTarget(w.boundArg(fr, x.Call.Value)); tgt != nil && tgt.Blocks != nil && u.pkgPathOf(tgt) == rtPath && fr.depth < 4 {
+					nf := &fgFrame{fn: tgt, parent: fr, site: nil, depth: fr.depth + 1}
+					call, blk, next := x, b, i+1
+					w.run(nf, tgt.Blocks[0], 0, st, started, retNil, func(st2 *fgState, started2 bool, rn map[ssa.Value]int, ret *ssa.Return) {
+						rn2 := map[ssa.Value]int{}
+						for k, v := range rn {
+							rn2[k] = v
+						}
+						if ei := errIndex(tgt.Signature); ei >= 0 && ret != nil {
+							if _, isT := call.Type().(*types.Tuple); !isT {
+								switch {
+								case isNilConst(ret.Results[ei]):
+									rn2[call] = 1
+								case freshError(ret.Results[ei]):
+									rn2[call] = 2
+								}
+							}
+						}
+						w.run(fr, blk, next, st2.clone(), started2, rn2, kret)
+					})
+					return
+				}
 			}
 			if sc == nil {
 				continue
@@ -224,6 +298,25 @@ func (w *fgWalker) run(fr *fgFrame, b *ssa.BasicBlock, idx int, st *fgState, sta
 					ev = bo.X
 				} else if isNilConst(bo.X) {
 					ev = bo.Y
+				}
+				// a parameter of an inlined helper whose argument is known at the call site (a function value, or nil)
+				if ev != nil {
+					if bv := w.boundArg(fr, ev); bv != ev {
+						known, isNil := false, false
+						if isNilConst(bv) {
+							known, isNil = true, true
+						} else if tgt, _ := funcValueTarget(bv); tgt != nil {
+							known = true
+						}
+						if known {
+							if (bo.Op == token.EQL) == isNil {
+								w.run(fr, b.Succs[0], 0, st, started, retNil, kret)
+							} else {
+								w.run(fr, b.Succs[1], 0, st, started, retNil, kret)
+							}
+							return
+						}
+					}
 				}
 				if n, ok := retNil[ev]; ok && ev != nil {
 					// the inlined callee's return decided it
